@@ -338,8 +338,10 @@ def r04h(ctx):
             for r in [x for s_ in br.body for x in ast.walk(s_) if isinstance(x, ast.Return)]:
                 n += 1
                 txt = ast.unparse(r.value) if r.value is not None else ""
-                ok = isinstance(r.value, ast.BoolOp) and isinstance(r.value.op, ast.Or) and any(
-                    isinstance(v, ast.Compare) and any(e in ast.unparse(v) for e in entry) for v in r.value.values)
+                from ..astx import resolve_local
+                vals = r.value.values if isinstance(r.value, ast.BoolOp) and isinstance(r.value.op, ast.Or) else []
+                vals = [resolve_local(tb.node, v) for v in vals]
+                ok = any(any(isinstance(c_, ast.Compare) and any(e in ast.unparse(c_) for e in entry) for c_ in ast.walk(v)) for v in vals)
                 if ok:
                     ctx.proved("R04h", tb.file, "EditDistance.tighten_bounds", r, "completion reports progress",
                                f"`return {norm(r.value, 90)}`: True whenever the bounds moved since entry")
